@@ -273,8 +273,23 @@ func bridgeDriver(a *Args) {
 		wg.Wait()
 		// a peer closes gracefully: it stops sending (FIN) and keeps reading until it sees the end of
 		// the stream itself, so that its own kernel never answers in-flight data with a reset
+		abortEnd := func(p *peer) {
+			// abortive close: the peer's socket is reset
+			hx.Emit("PeerClose", "c", c, "d", p.outDir, "abortive", true)
+			var tc *net.TCPConn
+			switch t := p.conn.(type) {
+			case *net.TCPConn:
+				tc = t
+			case *countedConn:
+				tc, _ = t.Conn.(*net.TCPConn)
+			}
+			if tc != nil {
+				tc.SetLinger(0)
+			}
+			p.conn.Close()
+		}
 		closeEnd := func(p *peer) {
-			hx.Emit("PeerClose", "c", c, "d", p.outDir)
+			hx.Emit("PeerClose", "c", c, "d", p.outDir, "abortive", false)
 			halfClose(p.conn)
 			go func() {
 				select {
@@ -293,6 +308,17 @@ func bridgeDriver(a *Args) {
 			}
 		}
 		switch bc.Closer {
+		case "client-abort":
+			// let in-flight data drain first: an abort is judged only for "the other peer notices"
+			time.Sleep(30 * time.Millisecond)
+			abortEnd(client)
+			waitEOF(server)
+			server.conn.Close()
+		case "server-abort":
+			time.Sleep(30 * time.Millisecond)
+			abortEnd(server)
+			waitEOF(client)
+			client.conn.Close()
 		case "client":
 			closeEnd(client)
 			waitEOF(server)
@@ -406,7 +432,7 @@ func bridgeDriver(a *Args) {
 		time.Sleep(5 * time.Millisecond)
 	}
 	for i, p := range peers {
-		hx.Emit("PeerClose", "c", p.c, "d", "up")
+		hx.Emit("PeerClose", "c", p.c, "d", "up", "abortive", false)
 		halfClose(p.conn)
 		select {
 		case <-servers[i].eof:
